@@ -198,8 +198,13 @@ def build(unit, workdir):
             raise Undecided("type shape changed: %s %s real %s vs contract %s" % (kind, name, r, mnames))
         g.rules_applied["type-shape-check"] = g.rules_applied.get("type-shape-check", 0) + 1
 
-    # syntactic frame checks
-    g.frame_results = []
+    g.frame_results = frame_checks(unit)
+    return g
+
+
+def frame_checks(unit):
+    """syntactic frame conditions, evaluated on the source files directly (independent of the rewrite pipeline)"""
+    results = []
     for fr in unit.get("frame", []):
         pat = re.compile(fr["pattern"])
         hits, bad = 0, []
@@ -210,8 +215,11 @@ def build(unit, workdir):
             for fp in fr.get("only_in", []):
                 fkey, fpath = fp.split(":", 1)
                 if unit["files"][fkey] == rel:
-                    f = S.find_fn(fpath)
-                    allowed.append((f["body_open"], f["body_close"]))
+                    try:
+                        f = S.find_fn(fpath)
+                        allowed.append((f["body_open"], f["body_close"]))
+                    except Undecided:
+                        pass
             tests = [(mm.start(), match_close(S.m, S.m.index("{", mm.end() - 1))) for mm in re.finditer(r"\bmod\s+tests?\s*\{", S.m)]
             for mm in pat.finditer(S.m):
                 if any(a <= mm.start() <= b for a, b in tests):
@@ -219,9 +227,9 @@ def build(unit, workdir):
                 hits += 1
                 if not any(a <= mm.start() <= b for a, b in allowed):
                     bad.append("%s:%d" % (rel, S.line_of(mm.start())))
-        g.frame_results.append(dict(name=fr["name"], tags=fr.get("tags", []), hits=hits, bad=bad,
-                                    min_hits=fr.get("min_hits", 1), violation=fr.get("violation", False)))
-    return g
+        results.append(dict(name=fr["name"], tags=fr.get("tags", []), hits=hits, bad=bad,
+                            min_hits=fr.get("min_hits", 1), violation=fr.get("violation", False)))
+    return results
 
 
 def fn_regions(text):
@@ -397,6 +405,14 @@ def run_unit(name, workdir, rlimit=None, seed=None, twins=True):
         g = build(unit, workdir)
     except Undecided as e:
         res["undecided"].append(str(e))
+        try:
+            for fr in frame_checks(unit):
+                if fr["bad"] and fr.get("violation"):
+                    res["obligations"]["%s/frame#%s" % (name, fr["name"])] = dict(
+                        tags=fr["tags"], clause="syntactic frame: %s (outside allowed: %s)" % (fr["name"], fr["bad"]), fn="frame", status="failed",
+                        diag=[dict(message="frame condition breached at %s" % fr["bad"], rendered="", in_fn="frame")], lines=[], shim=False, syntactic=True)
+        except Exception:
+            pass
         res["wall"] = time.time() - t0
         return res
     res["rules_applied"] = g.rules_applied
